@@ -381,5 +381,8 @@ def run(ctx, rep) -> None:
     rep.attempt("leafless_not_required", leafless_not_required, ctx, rep, "C09.4")
     rep.rule("C09.6", "nested module state is loaded by key: tensors copied in place, sequence entries looked up by their index, dict entries by their key (a missing entry raises instead of shifting or truncating the rest)")
     rep.attempt("in_place_loading", in_place_loading, ctx, rep, "C09.6")
+    from .c16 import module_round_trip
+
+    rep.attempt("module_round_trip", module_round_trip, ctx, rep, "C09.6")
     rep.attempt("group_fields", group_fields, ctx, rep, "C09.5")
     rep.assume("bit-for-bit trajectory equality after resume is NOT decided (needs execution); the rules decide that what the continuation depends on is saved and that loading is strict")
